@@ -82,6 +82,7 @@ func genFrag(t *rapid.T) Frag {
 
 func TestC08(t *testing.T) {
 	cfg := wlCfg{fixtures: fixturesFromEnv(c08Fixtures), maxRecs: envInt("VERIF_MAXRECS", 40), gen: vt.DefaultGen, bigPct: 5}
+	cfg.gen.HugeStr = 70000 // page headers (min/max statistics) beyond 64 KiB
 	rapid.Check(t, func(t *rapid.T) {
 		c := &FragCase{W: genWorkload(t, cfg), F: genFrag(t)}
 		o, short, disc := checkC08(c)
